@@ -489,6 +489,83 @@ func extractAll() {
 		}
 		addBool("sioConnectRechecksClosed", recheck, rel)
 	}
+	// ---- send path: every sender hands all frames of a packet to the queue in one call; the queue appends them in one critical section
+	{
+		single := true
+		for _, k := range []struct{ rel, recv, fn, callee string }{
+			{"server_conn.go", "serverConn", "sendBuffers", "packet"}, {"server_conn.go", "serverConn", "packet", "add"},
+			{"client_socket.go", "clientSocket", "_sendBuffers", "packet"}, {"client_manager.go", "Manager", "packet", "add"},
+		} {
+			fd := findFunc(load(k.rel), k.recv, k.fn)
+			if fd == nil {
+				single = false
+				continue
+			}
+			total, inLoop := callsIn(fd, k.callee)
+			if total == 0 || inLoop > 0 {
+				single = false
+			}
+		}
+		// packetQueue.add: one Lock, the append(s) to pq.packets, one Unlock, no loop around them
+		if fd := findFunc(load("packet_queue.go"), "packetQueue", "add"); fd != nil {
+			locks, _ := callsIn(fd, "Lock")
+			unlocks, _ := callsIn(fd, "Unlock")
+			_, appInLoop := callsIn(fd, "append")
+			if locks != 1 || unlocks != 1 || appInLoop > 0 {
+				single = false
+			}
+			lockPos, unlockPos := firstCall(fd, "Lock"), firstCall(fd, "Unlock")
+			ast.Inspect(fd, func(x ast.Node) bool {
+				if as, ok := x.(*ast.AssignStmt); ok {
+					for _, l := range as.Lhs {
+						if se, ok := l.(*ast.SelectorExpr); ok && se.Sel.Name == "packets" && (as.Pos() < lockPos || as.Pos() > unlockPos) {
+							single = false
+						}
+					}
+				}
+				return true
+			})
+		} else {
+			single = false
+		}
+		addBool("sioSendPathSingleAdd", single, "packet_queue.go")
+	}
+	// ---- client socket send gate: the state is read, and the buffer consulted, with sendBufferMu held
+	{
+		rel := "client_socket.go"
+		fd := findFunc(load(rel), "clientSocket", "_sendBuffers")
+		atomic := false
+		if fd != nil {
+			var lockPos, statePos, lenPos, firstUnlock token.Pos
+			ast.Inspect(fd, func(x ast.Node) bool {
+				switch n := x.(type) {
+				case *ast.CallExpr:
+					if se, ok := n.Fun.(*ast.SelectorExpr); ok {
+						if inner, ok := se.X.(*ast.SelectorExpr); ok && inner.Sel.Name == "sendBufferMu" {
+							if se.Sel.Name == "Lock" && lockPos == token.NoPos {
+								lockPos = n.Pos()
+							}
+							if se.Sel.Name == "Unlock" && firstUnlock == token.NoPos {
+								firstUnlock = n.Pos()
+							}
+						}
+					}
+					if id, ok := n.Fun.(*ast.Ident); ok && id.Name == "len" && len(n.Args) == 1 {
+						if se, ok := n.Args[0].(*ast.SelectorExpr); ok && se.Sel.Name == "sendBuffer" && lenPos == token.NoPos {
+							lenPos = n.Pos()
+						}
+					}
+				case *ast.SelectorExpr:
+					if n.Sel.Name == "state" && statePos == token.NoPos {
+						statePos = n.Pos()
+					}
+				}
+				return true
+			})
+			atomic = lockPos != token.NoPos && statePos > lockPos && lenPos > lockPos && firstUnlock > statePos && firstUnlock > lenPos
+		}
+		addBool("sioClientGateAtomic", atomic, rel)
+	}
 	// ---- Socket.IO packet types
 	{
 		p := "parser/packet.go"
@@ -501,6 +578,57 @@ func extractAll() {
 			addConst(k.n, p, k.c)
 		}
 	}
+}
+
+// callsIn counts the calls of a method or function named name in fd, and how many of them sit inside a loop
+func callsIn(fd *ast.FuncDecl, name string) (total, inLoop int) {
+	var walk func(n ast.Node, loop bool)
+	walk = func(n ast.Node, loop bool) {
+		ast.Inspect(n, func(x ast.Node) bool {
+			switch v := x.(type) {
+			case *ast.ForStmt:
+				if !loop {
+					walk(v.Body, true)
+					return false
+				}
+			case *ast.RangeStmt:
+				if !loop {
+					walk(v.Body, true)
+					return false
+				}
+			case *ast.CallExpr:
+				nm := ""
+				switch f := v.Fun.(type) {
+				case *ast.SelectorExpr:
+					nm = f.Sel.Name
+				case *ast.Ident:
+					nm = f.Name
+				}
+				if nm == name {
+					total++
+					if loop {
+						inLoop++
+					}
+				}
+			}
+			return true
+		})
+	}
+	walk(fd.Body, false)
+	return
+}
+
+func firstCall(fd *ast.FuncDecl, name string) token.Pos {
+	pos := token.NoPos
+	ast.Inspect(fd, func(x ast.Node) bool {
+		if c, ok := x.(*ast.CallExpr); ok && pos == token.NoPos {
+			if se, ok := c.Fun.(*ast.SelectorExpr); ok && se.Sel.Name == name {
+				pos = c.Pos()
+			}
+		}
+		return true
+	})
+	return pos
 }
 
 func serverErrors() (rows [][3]string, w string, ok bool) {
